@@ -454,6 +454,24 @@ def check_search(m, f, schema, res_wl, res_bound):
             elif a['ctype'].startswith('std::vector<std::list<unsigned int'):
                 pred_arr = d
     res_wl.sites += 1
+    if dist_arr is None and pred_arr is not None and schema in ('S-BFS', 'S-BFS-ALL'):
+        # the one integer array of the search that is filled with another constant than the documented sentinel
+        odd = []
+        for d, a in s.arrays.items():
+            init = a['init']
+            if d != pred_arr and init and init[0] == 'ctor' and len(init[2]) >= 2 and a['ctype'].startswith('std::vector<unsigned long'):
+                fill = strip_cast(init[2][1])
+                while fill[0] in ('ctor', 'cast') and fill[2]:
+                    fill = strip_cast(fill[2][0] if fill[0] == 'ctor' else fill[2])
+                if fill[0] == 'int' or (fill[0] in ('call', 'scall', 'mcall') and 'numeric_limits' in str(fill[1])):
+                    odd.append((d, fill))
+        if len(odd) == 1:
+            res_wl.fail(Finding(res_wl.rule, disp, '%s init-dist' % schema, f.where(),
+                                '%s conformance (init-dist): the distances `%s` start at `%s`, not at the documented sentinel '
+                                'BASEGRAPH_VERTEX_MAX: a vertex that is never reached reports that value, and every caller that '
+                                'tests the sentinel (the geodesic wrappers, client code) takes it for reachable'
+                                % (schema, s.arrays[odd[0][0]]['name'], show(odd[0][1], f.unit)[:60])))
+            return s
     if dist_arr is None or pred_arr is None:
         res_wl.broken('F-WL: cannot identify the distance / predecessor arrays of %s by their initialisation '
                       '(sentinel / +infinity fill)' % disp)
@@ -584,6 +602,17 @@ def check_search(m, f, schema, res_wl, res_bound):
                         src = st
     ok = src is not None
     why = 'the worklist is not initialised with the source'
+    if ok and not s.init_pushes:
+        # list-initialisation of the worklist: every element of the list must be the source ({n, source} is the two-element
+        # list, not `n copies of source`)
+        for (dn, rhs) in var_defs(f, W[1]):
+            if rhs >= 0:
+                for st in subterms(s.T(rhs)):
+                    if st[0] == 'ctor' and st[1].endswith(']') and any(strip_cast(x) != src for x in st[2]):
+                        extra = [x for x in st[2] if strip_cast(x) != src][0]
+                        ok = False
+                        why = 'the worklist is list-initialised with `%s` besides the source: that vertex is queued (and scanned) although ' \
+                              'it was never reached, and need not exist in the graph' % show(extra, f.unit)
     if ok:
         pre = [(an, ad, idx, rhs) for (an, ad, idx, rhs) in s.assigns if an not in s.body]
         d0 = [x for x in pre if x[1] == dist_arr and x[2] == src and strip_cast(x[3]) in (('int', 0), ('float', '0.000000'))]
